@@ -200,3 +200,41 @@ def validate(module, cfg, traces, shards=12, timeout=1800, scratch=None, key="id
     finally:
         if own:
             shutil.rmtree(scratch, ignore_errors=True)
+
+
+def validate_cells(module, cfg, batches, shards=12, timeout=1800):
+    """For trace specs that judge a *batch* of independent one-step cases per trace and do not stop at
+    a failing one: every failing case prints Verdict(case id, FALSE, clause, at); a finished batch prints
+    Verdict(batch id, TRUE, ...). Returns (failures: {case id: clause}, finished batch ids, stats)."""
+    import concurrent.futures as cf
+    scratch = tempfile.mkdtemp(prefix="tracec_")
+    try:
+        n = max(1, min(shards, len(batches)))
+        parts = [batches[i::n] for i in range(n)]
+        jobs = []
+        for i, part in enumerate(parts):
+            path = os.path.join(scratch, "%s_%d.json" % (module, i))
+            with open(path, "w") as f:
+                json.dump(part, f)
+            jobs.append((module, cfg, path, timeout))
+
+        def one(job):
+            r = run(job[0], job[1], workers=1, env={"TRACE_FILE": job[2]}, timeout=job[3])
+            return [json.loads(s) for s in r.printed("VERDICT")], r
+        fails, done = {}, set()
+        stats = {"states": 0, "generated": 0, "wall": 0.0, "jvms": n}
+        with cf.ThreadPoolExecutor(max_workers=n) as ex:
+            for (vs, r) in ex.map(one, jobs):
+                if (not r.ok and not r.violated) or r.violated:
+                    raise TLCError("trace validation %s/%s failed: %s\n%s" % (module, cfg, r.error or r.violated, r.out[-2000:]))
+                for v in vs:
+                    if v["ok"]:
+                        done.add(v["id"])
+                    else:
+                        fails[v["id"]] = v["clause"]
+                stats["states"] += r.distinct
+                stats["generated"] += r.generated
+                stats["wall"] = max(stats["wall"], r.wall)
+        return fails, done, stats
+    finally:
+        shutil.rmtree(scratch, ignore_errors=True)
